@@ -37,9 +37,10 @@ SCENARIOS = {}     # family -> builder(case) -> Scenario
 
 
 class Scenario:
-    def __init__(self, sim, entities=(), workload=0, extra=None, family=""):
+    def __init__(self, sim, entities=(), workload=0, extra=None, family="", variant=""):
         self.sim = sim
         self.family = family
+        self.variant = variant      # configuration class relevant for root-cause signatures (C03), "" if none
         self.workload_size = int(workload)
         self._extra = extra
         self._roots = list(entities)
@@ -1472,7 +1473,10 @@ def f_cached_store(case):
     evs += [ev(20 + 25 * i, fl, "Flush") for i in range(4)]
     sim = mksim([kv, cs, warmer, fl] + workers, 1500, events=evs)
     sim.schedule(warmer.start_warming())
-    return Scenario(sim, workload=90, extra=lambda: {"logs": [w.log for w in workers], "cached": sorted(cs.get_cached_keys())})
+    pol = pick(EVICTION_NAMES, k[3])
+    variant = "writeback" if not k[5] % 2 else (pol if pol in ("Random", "TTL-wallclock") else "")
+    return Scenario(sim, workload=90, extra=lambda: {"logs": [w.log for w in workers], "cached": sorted(cs.get_cached_keys())},
+                    variant=variant)
 
 
 @family("multi_tier_cache", "strkeys")
@@ -1491,7 +1495,9 @@ def f_multi_tier_cache(case):
                         promotion_policy=[PromotionPolicy.ALWAYS, PromotionPolicy.ON_SECOND_ACCESS, PromotionPolicy.NEVER][k[5] % 3])
     workers, evs = kv_workers(mt, case, 3, 30, 8, ops=("put", "get", "get", "get", "delete"))
     sim = mksim([kv, mt] + tiers + workers, 1500, events=evs)
-    return Scenario(sim, workload=90, extra=lambda: {"logs": [w.log for w in workers], "tier_stats": mt.get_tier_stats()})
+    pols = [pick(EVICTION_NAMES, k[2 + i]) for i in range(2)]
+    variant = "Random" if "Random" in pols else ("TTL-wallclock" if "TTL-wallclock" in pols else "")
+    return Scenario(sim, workload=90, extra=lambda: {"logs": [w.log for w in workers], "tier_stats": mt.get_tier_stats()}, variant=variant)
 
 
 @family("soft_ttl_cache", "strkeys")
